@@ -423,6 +423,12 @@ def run_case(case, drv):
                 tags.append("regular")
                 if m1 != mw:
                     k.append(f"theorem statement fails on data: Regular but model {m1} != walk {mw}")
+            if ask("notie") == "true":
+                tags.append("notie")
+                if m1 != mw:
+                    k.append(f"theorem statement fails on data: NoTie but model {m1} != walk {mw}")
+            if any(a != b for r_, a, b in zip(rows, m1, mw) if r_.amt > 0):
+                k.append(f"theorem statement fails on data: model {m1} != walk {mw} at a dose record")
         if is_chrono_rg:
             seen = set()
             for j in range(n):
